@@ -69,7 +69,7 @@ def cases(tier):
     # Pepis-Kalmar grows like 2^y: square limited in y
     out.append({"sub": "range-z", "pairing": "pepiskalmar", "lo": 0, "hi": 200_000 if thorough else 50_000})
     out.append({"sub": "range-xy", "pairing": "pepiskalmar", "xlo": 0, "xhi": 400 if thorough else 200, "ymax": 40})
-    HZ = 30000 if thorough else 3000
+    HZ = 60000 if thorough else 12000
     hb = 3000 if thorough else 1000
     for lo in range(0, HZ, hb):
         out.append({"sub": "range-z", "pairing": "hyperbolic", "lo": lo, "hi": lo + hb})
@@ -529,6 +529,38 @@ def _sub_states(sh, case):
         sh.violation(f"C14:states:d{dim}:{equal}:{sym}:missing:{cls}",
                      f"shape {shape}: exhaustion signalled after {len(got)} of {len(ref)} states; missing {missing[:6]}",
                      {"missing": missing, "enumerated": got})
+    # restart protocol of the only caller (InversionMethod with a full log): after the enumeration has passed the m-th
+    # admissible state, a call with x == max_logged == m must resume with the (m+1)-th admissible state, whatever the pointer
+    # had reached and however many pairing indices were skipped as inadmissible
+    if not (dups or extra or missing) and len(got) >= 4:
+        for m in sorted({1, len(got) // 2, len(got) - 2}):
+            npr.choice = choice
+            try:
+                sm2 = StatesManager(pairing=pairing, domain=domain, grid=grid)
+                seq = []
+                x = 0
+                while x < len(got):  # first pass, as the sampler does it: x counts the admissible states
+                    inc, done = sm2.project_index_to_state_increment(x, m)
+                    if done:
+                        break
+                    seq.append(tuple(int(v) for v in np.atleast_1d(inc)))
+                    x += 1
+                again = []
+                x = m
+                while x < len(got):
+                    inc, done = sm2.project_index_to_state_increment(x, m)
+                    sh.count("evaluations")
+                    if done:
+                        break
+                    again.append(tuple(int(v) for v in np.atleast_1d(inc)))
+                    x += 1
+            finally:
+                npr.choice = orig_choice
+            if seq != got or again != got[m:]:
+                sh.violation(f"C14:states:d{dim}:{equal}:{sym}:restart-after-last-logged-state-does-not-resume-there",
+                             f"shape {shape}: first pass {seq[:6]}..., restart at x = max_logged = {m} gives {again[:6]}... instead of {got[m:m + 6]}...",
+                             {"m": m, "restart": again, "expected": got[m:]})
+                break
     sh.outcome((tuple(shape), tuple(got[:4]), len(got)))
     sh.nontriv()
     if shape in ([(2, 3)], [(1, 1), (1, 2)]):
